@@ -1065,6 +1065,23 @@ def check_c37(A: Analysis, col: Collector):
         col.ok("C37.resort", "remove_nodes updates or re-sorts the sorted list", A.loc(rn.node))
     else:
         col.fail("C37.resort", rn.qualname, "no-resort-after-removal", "remove_nodes leaves removed nodes in the sorted list", A.loc(rn.node))
+    # the shortcut that drops a prefix of the sorted list is taken only when exactly that prefix is what is
+    # being removed: the slice compared and the slice dropped have the same length expression
+    drops = [n for n in walk_own(rn.node) if isinstance(n, ast.Assign) and norm(n.targets[0]) == "self._sorted_nodes" and isinstance(n.value, ast.Subscript) and isinstance(n.value.slice, ast.Slice) and n.value.slice.lower is not None and n.value.slice.upper is None]
+    for d in drops:
+        dropped_len = norm(d.value.slice.lower)
+        g_ = next((p_ for p_ in parents(d) if isinstance(p_, ast.If)), None)
+        ok_ = False
+        if g_ is not None and isinstance(g_.test, ast.Compare) and len(g_.test.ops) == 1 and isinstance(g_.test.ops[0], ast.Eq):
+            sides = [g_.test.left, g_.test.comparators[0]]
+            pref = [x for x in sides if isinstance(x, ast.Subscript) and isinstance(x.slice, ast.Slice) and x.slice.lower is None and x.slice.upper is not None and "sorted_nodes" in norm(x.value)]
+            whole = [x for x in sides if isinstance(x, ast.Name)]
+            if pref and whole and norm(pref[0].slice.upper) == dropped_len and dropped_len == f"len({whole[0].id})":
+                ok_ = True
+        if ok_:
+            col.ok("C37.resort", f"remove_nodes drops the first {dropped_len} entries only when they are exactly the nodes removed (`{norm(g_.test, 60)}`)", A.loc(d))
+        else:
+            col.fail("C37.resort", rn.qualname, "prefix-drop-guard-mismatch", f"`{norm(d, 60)}` drops {dropped_len} entries from the front of the sorted list under `{norm(g_.test, 50) if g_ is not None else 'no guard'}`, which does not establish that these entries are the removed nodes: a removed node stays in the order and a remaining one is lost", A.loc(d))
     sn = A.cls(g).find_method("sorted_nodes")
     if any(isinstance(n, ast.If) and norm(n.test) == "self._sorted_nodes is None" and any(isinstance(c, ast.Call) and isinstance(c.func, ast.Attribute) and c.func.attr == "sorting" for c in ast.walk(n)) for n in walk_own(sn.node)):
         col.ok("C37.resort", "sorted_nodes sorts lazily when no sorted list exists", A.loc(sn.node))
